@@ -292,6 +292,9 @@ pub enum Discard {
     None,
     Newest(usize),
     Oldest(usize),
+    /// the factory starts WITHOUT a discard limit; a later UpdateSettings (event SetLimit) installs one in this mode
+    LateNewest,
+    LateOldest,
 }
 
 #[derive(Clone, Copy, Debug, PartialEq, Eq)]
@@ -411,7 +414,7 @@ async fn spawn_factory_q<R: Router<Key, JobMsg>, Q: Queue<Key, JobMsg>>(router: 
         }
     }
     let discard_settings = match (cfg.discard, cfg.dynamic_to) {
-        (Discard::None, _) => DiscardSettings::None,
+        (Discard::None | Discard::LateNewest | Discard::LateOldest, _) => DiscardSettings::None,
         (Discard::Newest(l), None) => DiscardSettings::Static { limit: l, mode: DiscardMode::Newest },
         (Discard::Oldest(l), None) => DiscardSettings::Static { limit: l, mode: DiscardMode::Oldest },
         (Discard::Newest(l), Some(t)) => DiscardSettings::Dynamic { limit: l, mode: DiscardMode::Newest, updater: Box::new(Ctl(t)) },
@@ -568,7 +571,7 @@ pub async fn run(cfg: Cfg) -> Run {
     };
     let mut no_wait = false;
     let mut cur_limit = match cfg.discard {
-        Discard::None => None,
+        Discard::None | Discard::LateNewest | Discard::LateOldest => None,
         Discard::Newest(l) | Discard::Oldest(l) => Some(l),
     };
     let mut limits: Vec<(usize, Option<usize>)> = vec![(0, cur_limit)];
@@ -751,7 +754,7 @@ pub async fn run(cfg: Cfg) -> Run {
             Event::SetLimit(l) => {
                 cur_limit = Some(l);
                 limits.push((history.len() - 1, cur_limit));
-                let mode = if matches!(cfg.discard, Discard::Oldest(_)) { DiscardMode::Oldest } else { DiscardMode::Newest };
+                let mode = if matches!(cfg.discard, Discard::Oldest(_) | Discard::LateOldest) { DiscardMode::Oldest } else { DiscardMode::Newest };
                 let _ = f.cast(FactoryMessage::UpdateSettings(UpdateSettingsRequest::builder().discard_settings(DiscardSettings::Static { limit: l, mode }).build()));
             }
             Event::Drain => {
@@ -1033,6 +1036,18 @@ pub fn plan(property: &'static str, tier: &str) -> Plan {
                 cfgs.push((
                     Cfg { routing: r, discard: Discard::None, workers: 0, depth: script.split(',').count(), ttl: false, lean: true, burst: false, queue: QueueKind::Default, set_limit: false, flow_only: false, fine_deaths: false, script: Some(script), slow_stops: false, late_handler: false, dynamic_to: None },
                     if thorough { 1 } else { 0 },
+                ));
+            }
+        }
+    }
+    // a factory started without a discard limit gets one at run time (UpdateSettings): the existing workers' own
+    // queues (worker-queued routing) and the factory queue follow it
+    if property == "C15" || thorough {
+        for r in [Routing::KeyPersistent, Routing::Queuer, Routing::Sticky] {
+            for (d, script) in [(Discard::LateNewest, "L2,D0,D0,D0,D0,D0,C0"), (Discard::LateNewest, "L0,D0,D0,D0"), (Discard::LateOldest, "L2,D0,D0,D0,D0,D0,C0"), (Discard::LateOldest, "L0,D0,D0,D0,C0")] {
+                cfgs.push((
+                    Cfg { routing: r, discard: d, workers: 1, depth: script.split(',').count(), ttl: false, lean: true, burst: false, queue: QueueKind::Default, set_limit: true, flow_only: false, fine_deaths: false, script: Some(script), slow_stops: false, late_handler: false, dynamic_to: None },
+                    0,
                 ));
             }
         }
